@@ -14,7 +14,8 @@ CONSTANTS Threads, Inputs, MaxObjs, MaxCalls,
           BugSharedScratch,   \* constructions use one shared (class-level) scratch map
           BugCache,           \* a module-level result cache keyed by part of the input only
           BugAccessorMutates, \* an accessor pops an entry of the object's metric map
-          BugJsonAlias        \* as_json returns an internal dictionary by reference
+          BugJsonAlias,       \* as_json returns an internal dictionary by reference
+          BugEntryPointWritesTables  \* an entry point (interactive builder / calculator main) edits a shared constant table
 Accessors == {"scores","severities","clean","clean_np","rh","tv","ev","json_uf","json_um","json_sf","json_sm","eq_self","hash","mutate_json"}
 Pipeline == <<"parse","mandatory","fill","base","temporal","env">>
 \* abstract pure functions of an input i = <<kind, prefix, body>> ------------------------------
@@ -71,7 +72,16 @@ Call(o, acc) == /\ o \in 1..Len(heap) /\ acc \in Accessors /\ ncalls < MaxCalls
                            ELSE IF BugJsonAlias /\ acc = "mutate_json" THEN [heap EXCEPT ![o].json = "clobbered"]
                            ELSE heap
                 /\ ncalls' = ncalls + 1 /\ UNCHANGED <<thr, shared, cache, globals, out>>
+\* ---- the two entry points (interactive builder, calculator main) are calls of a history too: they talk to the terminal (their
+\* own output is not `out`, which stands for output of library calls outside them) and build objects of their own, but leave
+\* the heap and the process globals alone
+EntryPoints == {"ask", "cli"}
+EntryPoint(kind) == /\ kind \in EntryPoints /\ ncalls < MaxCalls
+                    /\ last' = <<"entry", kind>>
+                    /\ globals' = IF BugEntryPointWritesTables THEN "G1" ELSE globals
+                    /\ ncalls' = ncalls + 1 /\ UNCHANGED <<heap, thr, shared, cache, out>>
 Next == \/ \E t \in Threads, i \in Inputs : Begin(t, i)
+        \/ \E kind \in EntryPoints : EntryPoint(kind)
         \/ \E t \in Threads : StepParse(t) \/ StepMandatory(t) \/ StepFill(t) \/ \E k \in 4..6 : StepScore(t, k)
         \/ \E o \in 1..MaxObjs, acc \in Accessors : Call(o, acc)
 Spec == Init /\ [][Next]_vars
